@@ -49,6 +49,14 @@ def run_history(ctx, res, rng, hid):
         return
     model_reqs = []
     for step in range(rng.randint(3, 7)):
+        if step > 0 and rng.random() < 0.3:
+            # a reindex limited to one page in between (nothing is pending: it only rewrites the hash map, for that page alone);
+            # the other pages are still indexed, and their notes are still stamped when they are edited later
+            only = rng.choice(sorted(w.files()))
+            if w.run("db", "reindex", str(zdir / only)) != 0:
+                res.failures.append(C.Failure(f"db reindex {only} failed with nothing pending", {"log": w.log, "kind": "reindex_failed"}))
+                return
+            res.count("path_limited_reindex_between_rounds")
         before_files = w.files()
         before_idx = c05.index_notes(zdir)
         for _ in range(rng.randint(1, 3)):
@@ -155,7 +163,7 @@ def classify(f: C.Failure, entry: dict) -> bool:
 
 RULE = (
     "edit histories over several calendar days on indexed directories: 3-7 rounds of 1-3 edits (body, bullet, kind, priority, new note, header line, "
-    "section title, comment, whitespace) + 0-3 days + `db reindex`; per round an independent oracle computes the stamp set from the previous index "
+    "section title, comment, whitespace) + 0-3 days + `db reindex` (30% of the rounds preceded by a reindex limited to one page); per round an independent oracle computes the stamp set from the previous index "
     "rows and the new text (priority as written, also for done todos) and checks iff-stamping in file (date inserted / replaced in front of the ZID) and index, byte identity of every other "
     "line, file/index agreement and quiescence; stamped lines also vs NoteText.addOrUpdateModifyDate; non-trivial = round with at least one stamp"
 )
